@@ -182,14 +182,23 @@ def traceOfLines : List RecLine → PState → Trace
     let r' := afterRecord r l.n l.ttl l.ty l.rd (linesText rest)
     .entry r'.effOrigin l.entry (traceOfLines rest r')
 
-theorem lineStep_eof (r : PState) (h : r.tok = after 0 false []) : lineStep r = .ok (.eof, r) := by
+theorem afterRecord_saved (r : PState) (n : Name) (ttl ty : Nat) (rd : Rdata) (rest : List Nat) :
+    (afterRecord r n ttl ty rd rest).saved = r.saved := by
+  unfold afterRecord
+  simp only
+  split
+  · cases rd <;> simp
+  · simp
+
+/-- the end of the top file (no `$INCLUDE` pending) -/
+theorem lineStep_eof (r : PState) (h : r.tok = after 0 false []) (hsv : r.saved = []) : lineStep r = .ok (.eof, r) := by
   unfold lineStep
-  simp [h, after, TState.get, skipWs, getLoop, stepEof, finishTok, liftT, bind, Except.bind, pure, Except.pure]
+  simp [h, hsv, after, TState.get, skipWs, getLoop, stepEof, finishTok, liftT, bind, Except.bind, pure, Except.pure]
 
 /-- **the parser's trace of a file of canonical record lines is the list of their records** -/
 theorem parseTrace_lines (ls : List RecLine) (r : PState) (zo : Name) (fuel : Nat) (hf : ls.length < fuel)
     (hco : r.currentOrigin = some zo) (hzo : r.zoneOrigin = some zo)
-    (htok : r.tok = after 0 false (linesText ls))
+    (htok : r.tok = after 0 false (linesText ls)) (hsv : r.saved = [])
     (hg : ∀ l ∈ ls, l.Good zo r.relativize r.gfix) :
     parseTrace fuel r = traceOfLines ls r := by
   induction ls generalizing r fuel with
@@ -198,7 +207,7 @@ theorem parseTrace_lines (ls : List RecLine) (r : PState) (zo : Name) (fuel : Na
     | zero => simp at hf
     | succ f =>
       simp only [parseTrace, traceOfLines]
-      rw [lineStep_eof r (by simpa [linesText] using htok)]
+      rw [lineStep_eof r (by simpa [linesText] using htok) hsv]
   | cons l rest ih =>
     cases fuel with
     | zero => simp at hf
@@ -209,6 +218,6 @@ theorem parseTrace_lines (ls : List RecLine) (r : PState) (zo : Name) (fuel : Na
       simp only [parseTrace, traceOfLines, hstep, RecLine.entry]
       obtain ⟨f1, f2, f3, f4, f5⟩ := afterRecord_fields r l.n l.ttl l.ty l.rd (linesText rest)
       rw [ih (afterRecord r l.n l.ttl l.ty l.rd (linesText rest)) f (by simpa using hf) (f2 ▸ hco) (f3 ▸ hzo) f1
-        (by rw [f4, f5]; exact fun l' hl' => hg l' (by simp [hl']))]
+        (by rw [afterRecord_saved]; exact hsv) (by rw [f4, f5]; exact fun l' hl' => hg l' (by simp [hl']))]
 
 end Model
